@@ -83,7 +83,7 @@ CLAIMED = {
         ref="DESIGN.md section 6, C13"),
     "C15": dict(
         text="Self-composition over symbolic frames of ten kinds at both log levels: the type, raw bytes, error text and readable text (MSM time lines excluded) produced by a fresh handler equal those produced by a handler that has already processed other frames and the same frame; displaying a message three times gives identical text and never changes its raw bytes or error text; displaying one by-value copy of a delivered message leaves the other copy's fields and raw bytes untouched and both display the same. Two goroutines with a handler each decode and display the same frame (the ten kinds and a frame of symbolic type) under an isolation monitor: no memory cell or map of the code under test written by one is used by the other; both see what a single handler shows.",
-        note="the histories half of the quantifier; the concurrent half (parallel handlers, race detector) is outside what an interleaving model at synchronisation granularity can see and is stated as outside the claim.",
+        note="histories by self-composition inside one process (a process-wide cache affects both runs alike and needs an independent oracle: C08 has one for wavelengths); the concurrent half through the isolation monitor for two independent goroutines (confirmed natively by the race detector over all 4095 types); other unsynchronised accesses are outside the claim.",
         ref="DESIGN.md section 6, C15"),
     "C16": dict(
         text="The real start(cfg) of rtcmlogger runs with its copying loop on a scripted standard input (0..5 symbolic bytes in reads of 1..3 bytes) and its recorder goroutine on the daily logger, under the lazy, round-robin and one-preemption schedules: standard output is identical to the input, and at the instant start returns - where the program exits - the day's record already holds exactly the input; later overwrites of the read buffer cannot change a block already handed to the recorder (checked through aliasing in the symbolic heap). With a standard output whose every write fails the record is complete all the same.",
